@@ -163,6 +163,18 @@ def format_desc_list(label: str, descs: Sequence[FieldDesc]) -> Iterator[Tag]:
         row(d.format())
         yield row
 
+def format_field_fallback(errs: List[ParseError], parsed_doc: ParsedDocstring, ctx: model.Documentable) -> Tag:
+    """
+    The body of a field could not be rendered: show its text, without markup, like a docstring that
+    falls back to plain text. The parsed docstring maybe doesn't support to_node(), i.e. ParsedTypeDocstring,
+    then we can only show the broken text.
+    """
+    try:
+        text = ''.join(node2stan.gettext(parsed_doc.to_node()))
+    except Exception:
+        return BROKEN
+    return tags.p(text, class_='pre') if text.strip() else BROKEN
+
 @attr.s(auto_attribs=True)
 class Field:
     """Like L{pydoctor.epydoc.markup.Field}, but without the gross accessor
@@ -194,9 +206,7 @@ class Field:
     def format(self) -> Tag:
         """Present this field's body as HTML."""
         return safe_to_stan(self.body, self.source.docstring_linker, self.source,
-                    # the parsed docstring maybe doesn't support to_node(), i.e. ParsedTypeDocstring,
-                    # so we can only show the broken text.
-                    fallback=lambda _, __, ___:BROKEN)
+                    fallback=format_field_fallback)
 
     def report(self, message: str) -> None:
         self.source.report(message, lineno_offset=self.lineno, section='docstring')
